@@ -113,15 +113,15 @@ class Message:
         if not code_and_vendor:
             return []
 
+        if alt_list is not None:
+            # the cache remembers searches of the message's own AVP tree only
+            return _traverse_avp_tree(alt_list, list(code_and_vendor))
+
         path = "/".join(f"{c}_{v}" for c, v in code_and_vendor)
         if path in self.__find_cache:
             return self.__find_cache[path]
 
-        avp_list = self.avps
-        if alt_list is not None:
-            avp_list = alt_list
-
-        result = _traverse_avp_tree(avp_list, list(code_and_vendor))
+        result = _traverse_avp_tree(self.avps, list(code_and_vendor))
         self.__find_cache[path] = result
 
         return result
